@@ -211,19 +211,22 @@ class ApiGen:
                 self.report('C13', 'create-mask', 'after the enabling calls so far the abstract model has user mask %d, but create(features=%d) returned %d' % (self.mask, feat, st))
                 if st == 0:
                     self.dump(k)
-            if o.events:
-                self.report('C15', 'create-unsupported-events', 'create refused for features called dependencies: %s' % o.events)
+            if ev.count('alloc') - sum(1 for e in o.events if 'ret=null' in e) != ev.count('free'):
+                self.report('C15', 'create-unsupported-leak', 'create refused for features took %d block(s) from the allocator and returned %d: %s' % (
+                    ev.count('alloc') - sum(1 for e in o.events if 'ret=null' in e), ev.count('free'), o.events))
         elif fail:
-            if st != 6:
-                self.report('C15', 'create-alloc-fail', 'create with a failing allocator returned %d, expected the memory status (6)' % st)
-            if ev != ['alloc']:
-                self.report('C15', 'create-alloc-fail-events', 'create with a failing allocator made further dependency calls: %s' % ev)
+            # judged by what happened: the allocator did fail during this call
+            if any('ret=null' in e for e in o.events) and st != 6:
+                self.report('C15', 'create-alloc-fail', 'the allocator failed during create, which returned %d, expected the memory status (6)' % st)
+            if not any('ret=null' in e for e in o.events) and st == 0 and 'alloc' not in ev:
+                self.report('C15', 'create-alloc-fail', 'create returned a seed without taking a block from the injected allocator')
         else:
             if st != 0:
                 self.report('C10', 'create', 'create(features=%d) with user mask %d returned %d, expected OK' % (feat, self.mask, st))
             else:
-                if ev != ['alloc', 'time', 'rand', 'zero']:
-                    self.report('C18', 'create-events', 'create called its dependencies as %s, expected alloc,time,rand,zero' % ev)
+                # C18: 19 bytes from the injected random source, the injected clock; order and further wipes are not constrained
+                if ev.count('rand') != 1 or ev.count('time') < 1 or ev.count('alloc') < 1:
+                    self.report('C18', 'create-events', 'create called its dependencies as %s, expected one request to the random source, the clock and the allocator' % ev)
                 f = self.dump(k)
                 if f:
                     self.check_canon(f, 'create')
@@ -241,6 +244,9 @@ class ApiGen:
                         tt = int(re.search(r't=(\d+)', tim_ev[0]).group(1))
                         if f['b'] != spec.birthday_of(tt):
                             self.report('C11', 'create-birthday', 'create at clock %d stored birthday index %d, expected %d' % (tt, f['b'], spec.birthday_of(tt)))
+                            if not any(f['b'] == spec.birthday_of(int(re.search(r't=(\d+)', e).group(1))) for e in tim_ev):
+                                self.report('C18', 'create-clock', 'the birthday index %d of the created seed does not come from the injected clock (it returned %s)' % (
+                                    f['b'], [int(re.search(r't=(\d+)', e).group(1)) for e in tim_ev]))
                         B = EPOCH + f['b'] * STEP
                         if EPOCH <= tt < 2 ** 64 - 1 and B > tt:
                             self.report('C11', 'create-future', 'created at t=%d, reports birthday %d > t' % (tt, B))
@@ -257,8 +263,9 @@ class ApiGen:
         if o is None or o.head == 'skip':
             return
         ev = [' '.join(e.split()[1:]) for e in o.events]
-        ok = (len(o.events) == 2 and o.events[0].startswith('E zero') and (' %s ' % blk) in o.events[0] + ' ' and o.events[1].startswith('E free')
-              and (' %s ' % blk) in o.events[1] and o.events[1].endswith('zeroed=1'))
+        fr = [i for i, e in enumerate(o.events) if e.startswith('E free')]
+        ok = (len(fr) == 1 and (' %s ' % blk) in o.events[fr[0]] and o.events[fr[0]].endswith('zeroed=1')
+              and any(e.startswith('E zero') and (' %s ' % blk) in e + ' ' for e in o.events[:fr[0]]))
         if not ok:
             self.report('C16' if any('zeroed=0' in e for e in o.events) or not any(e.startswith('E zero') for e in o.events) else 'C15',
                         'free-events', 'freeing %s produced %s, expected wipe of the block followed by exactly one free of it' % (blk, ev))
@@ -387,7 +394,7 @@ class ApiGen:
         f = self.slots[k]
         import re
         kd = [e for e in o.events if e.startswith('E kdf')]
-        if len(o.events) != 1 or len(kd) != 1:
+        if len(kd) != 1:
             self.report('C04', 'keygen-events', 'keygen made dependency calls %s, expected exactly one KDF call' % [e.split()[1] for e in o.events])
             return o
         m = re.search(r'pw=(\S+) salt=(\S+) iters=(\d+) keylen=(\d+) out=(\S+)', kd[0])
@@ -781,8 +788,8 @@ class ApiGen:
                 return
             if o.kv('st') == '7':
                 pass
-            elif o.kv('st') != '6':
-                self.report('C15', 'decode-alloc-fail', 'decode with a failing allocator returned %s, expected the memory status' % o.kv('st'))
+            elif o.kv('st') != '6' and (any('ret=null' in e for e in o.events) or o.kv('st') == '0'):
+                self.report('C15', 'decode-alloc-fail', 'the allocator failed during decode, which returned %s, expected the memory status' % o.kv('st'))
             if k2 is not None:
                 self.free(k2)
             # a failing allocator must not matter on error paths that come earlier
@@ -796,8 +803,8 @@ class ApiGen:
         self.s.directive('!failalloc 0')
         o, k2 = self.load(buf)
         self.s.directive('!failalloc -1')
-        if o is not None and o.kv('st') != '6':
-            self.report('C15', 'load-alloc-fail', 'load with a failing allocator returned %s, expected the memory status' % o.kv('st'))
+        if o is not None and o.kv('st') != '6' and (any('ret=null' in e for e in o.events) or o.kv('st') == '0'):
+            self.report('C15', 'load-alloc-fail', 'the allocator failed during load, which returned %s, expected the memory status' % o.kv('st'))
         if k2 is not None:
             self.free(k2)
         # subsequent calls behave normally
@@ -829,7 +836,7 @@ class ApiGen:
             if o.kv('st') == '4':
                 a = [e for e in o.events if e.startswith('E alloc') and 'ret=b' in e]
                 fr = [e for e in o.events if e.startswith('E free') and e.endswith('zeroed=1')]
-                if len(a) != 1 or len(fr) != 1:
+                if len(a) != len(fr):
                     self.report('C15', 'decode-unsupported-free', 'unsupported exit of decode: allocs %s frees %s' % (a, fr))
             if k2 is not None:
                 self.free(k2)
